@@ -219,6 +219,11 @@ pub fn reasm_run(run: u64, rng: &mut SmallRng, out: &mut NdJson, dups: bool, dis
             let nfb2 = [6usize, 12, 3, 18][rng.gen_range(0..4)];
             pieces.extend(split(len, nfb2));
         }
+        if rng.gen_range(0..4) == 0 {
+            // the same datagram also arrives whole (another path did not fragment it): RFC 791 steps (2)-(5) flush the
+            // buffer of a reassembly in progress
+            pieces.push((0, len, false));
+        }
         ds.push(Dgram { key, len, ttl: [1u8, 15, 30, 64, 255][rng.gen_range(0..5)], pieces });
     }
     out.put(&json!({"ev":"reset","run":run,"i":0,"nd":nd,"dups":dups}));
